@@ -286,10 +286,10 @@ Fixpoint show_goval (fuel : nat) (t : gotype) (v : goval) : bytes :=
   | O => bs "?"
   | S f =>
     match t with
-    | TInt => match v with GVal x => show_val 64 x | _ => bs "i0" end
-    | TFloat64 => match v with GVal x => show_val 64 x | _ => bs "f0" end
-    | TString => match v with GVal x => show_val 64 x | _ => bs "s" end
-    | TBool => match v with GVal x => show_val 64 x | _ => bs "b0" end
+    | TInt => match v with GVal x => show_val 64 x | GPrev _ => bs "i77" | _ => bs "i0" end
+    | TFloat64 => match v with GVal x => show_val 64 x | GPrev _ => bs "f4620130267728707584" | _ => bs "f0" end
+    | TString => match v with GVal x => show_val 64 x | GPrev _ => bs "s7374616c65" | _ => bs "s" end
+    | TBool => match v with GVal x => show_val 64 x | GPrev _ => bs "b1" | _ => bs "b0" end
     | TOther _ => bs "o"
     | TIface _ => match v with GVal x => bs "I" ++ show_val 64 x | _ => bs "nil" end
     | TPtr et => match v with GPtrTo x => bs "&" ++ show_goval f et x | _ => bs "nilptr" end
@@ -306,14 +306,27 @@ Definition berr_name (e : berr) : bytes :=
   | ETypeName => "type-name" | EMapping => "mapping" | EUnexported => "unexported" | ENilValue => "nil-value"
   | EDupField => "dup-field" | ENilEmbedded => "nil-embedded" | ECannotSet => "cannot-set" | ETypeMismatch => "type-mismatch"
   | EBadBlockValue => "bad-block" end.
-(* bind: fields  mode ; type ; binding kind ; blocks...   (targets start from zero values) *)
+(* a target holding previous content: every settable scalar (exported, or reached through an embedded struct)
+   holds 77 / 7.5 / "stale" / true; pointers, slices, interfaces stay nil *)
+Fixpoint prefill (fuel : nat) (t : gotype) : goval :=
+  match fuel with
+  | O => GZero
+  | S f =>
+    match t with
+    | TInt | TFloat64 | TString | TBool => GPrev 1
+    | TStruct _ fs => GStruct (map (fun fld => if fexp fld || femb fld then prefill f (ftyp fld) else GZero) fs)
+    | _ => GZero
+    end
+  end.
+
+(* bind: fields  mode ; type ; binding kind ; blocks...   (targets start from zero values, mode q: prefilled) *)
 Definition suite_bind (c : bytes) : bytes :=
   match fields c with
   | mode :: ty :: bk :: blks =>
     let t := read_type 32 ty in
     let m := hd_byte mode in
     let tg := if m =? 110 then TgtNilIface else if m =? 118 then TgtValue t GZero
-              else if m =? 122 then TgtNilPtr t else TgtPtr t GZero in
+              else if m =? 122 then TgtNilPtr t else if m =? 113 then TgtPtr t (prefill 32 t) else TgtPtr t GZero in
     let k := hd_byte bk in
     let b := if k =? 110 then BdNone else if k =? 115 then BdStruct (read_bval 32 (hd [] blks))
              else if k =? 108 then BdSlice (map (read_bval 32) blks) else BdUnknown in
